@@ -26,6 +26,9 @@ func genMapCase(r *rand.Rand, cfg Cfg, nops int, usize int) Case {
 		m := live[s]
 		x := r.Intn(100)
 		switch {
+		case x < 1 && cfg.Cache != "none":
+			// the rest of the history opens trees through a cold node cache (another process)
+			ops = append(ops, "coldcache")
 		case x < 45:
 			k := pick(r, uni)
 			v := uint64(r.Intn(5))
